@@ -130,4 +130,54 @@ func cmdExplore(pkg, h string, tier, workers, unwind, budget int) int {
 	return 0
 }
 
-func cmdSelftest(args []string) int { return 2 }
+// cmdSelftest: the three solvers answer a trivial query, the repository loads with the harness
+// overlay, and a small harness runs clean and its witnesses replay natively with identical values.
+func cmdSelftest(args []string) int {
+	for _, kind := range []string{"z3", "z3-new", "cvc5"} {
+		s, err := NewSolver(kind, 5000)
+		if err != nil {
+			fmt.Println("selftest: cannot start", kind, err)
+			return 2
+		}
+		ts := NewTermStore()
+		x := ts.Sym(8, "x")
+		r1 := s.Check([]*Term{ts.Eq(ts.Bin(OpAdd, x, ts.Const(8, 1)), ts.Const(8, 0))}, nil)
+		r2 := s.Check([]*Term{ts.Cmp(OpUlt, x, ts.Const(8, 5)), ts.Cmp(OpUlt, ts.Const(8, 7), x)}, nil)
+		s.Close()
+		if r1 != Sat || r2 != Unsat {
+			fmt.Printf("selftest: %s gives %s/%s on the probe queries\n", kind, r1, r2)
+			return 2
+		}
+	}
+	ov, err := buildOverlay([]string{harnessRoot()})
+	if err != nil {
+		fmt.Println("selftest:", err)
+		return 2
+	}
+	prog, _, err := loadProgram(ov, []string{repoMod + "protocol/model"})
+	if err != nil {
+		fmt.Println("selftest: load failed:", err)
+		return 2
+	}
+	fn := prog.ImportedPackage(repoMod + "protocol/model").Func("VerifC07Helpers")
+	if fn == nil {
+		fmt.Println("selftest: harness VerifC07Helpers missing")
+		return 2
+	}
+	res := exploreHarness(prog, fn, runOpts{tier: 0, unwind: 3000, maxSteps: 10_000_000, solver: "z3", timeoutMS: 10000, workers: 4}, nil, nil)
+	res.Pkg = "protocol/model"
+	if len(res.Inconcl) > 0 || len(res.Cands) > 0 || res.Stats.done == 0 {
+		fmt.Println("selftest: probe harness not clean:", res.Inconcl, len(res.Cands))
+		return 2
+	}
+	rp := &replayer{id: "selftest", root: filepath.Join(verifRoot(), "replays", "selftest")}
+	os.RemoveAll(rp.root)
+	ok, bad, note := rp.validateWitnesses(res.Pkg, res.Witnesses)
+	os.RemoveAll(rp.root)
+	if bad > 0 || ok == 0 {
+		fmt.Println("selftest: witness replay disagrees with the native build:", ok, bad, note)
+		return 2
+	}
+	fmt.Printf("selftest ok: 3 solvers, %d paths, %d witnesses replayed natively\n", res.Stats.paths, ok)
+	return 0
+}
